@@ -336,7 +336,7 @@ func checkMC(r *ev.Run, c gcase, s model3d.Solid, delta float64, iters int, with
 					if at(i, j, k) {
 						want = 1
 					}
-					if math.Abs(w-want) > 1e-6 {
+					if !(math.Abs(w-want) <= 1e-6) {
 						viol("side-of-surface", fmt.Sprintf("lattice point %v: solid says contained=%v, but the winding number of the mesh around it is %.4f", p, want == 1, w))
 						return
 					}
@@ -503,7 +503,7 @@ func checkMS(r *ev.Run, c gcase, s model2d.Solid, delta float64, iters int) {
 			if at(i, j) {
 				want = -1
 			}
-			if math.Abs(w-want) > 1e-6 {
+			if !(math.Abs(w-want) <= 1e-6) {
 				viol("side-of-surface", fmt.Sprintf("lattice point (%g,%g): contained=%v but the winding number of the outline is %.4f", xs[i], ys[j], want != 0, w))
 				return
 			}
@@ -781,7 +781,7 @@ func checkDC(r *ev.Run, c gcase, s model3d.Solid, delta float64, o dcOpts) {
 						total += math.Atan2(ax*by-ay*bx, ax*bx+ay*by)
 					}
 					wn := total / (2 * math.Pi) * dirSign
-					if outline != 4 || math.Abs(wn-1) > 1e-6 {
+					if outline != 4 || !(math.Abs(wn-1) <= 1e-6) {
 						viol("quad-orientation", fmt.Sprintf("lattice edge %v axis %d (contained end first=%v): the quad's outline (%d edges) winds %.3f times around the edge in the direction contained -> excluded, want +1", idx, axis, a, outline, wn))
 						return
 					}
